@@ -503,6 +503,9 @@ type fakeToken struct {
 	fetch  atomic.Int64
 	tc     *config.TokenConfig
 	closed bool
+	// gate: when set, a pinned fetch announces itself on `entered` and waits for `gate` (cacherace ops)
+	gate    chan struct{}
+	entered chan struct{}
 }
 
 func (t *fakeToken) next(stage string) error {
@@ -526,6 +529,13 @@ func (t *fakeToken) GetKey(ctx context.Context, name string) (token.Key, error) 
 	t.fetch.Add(1)
 	if e := t.next("getKey"); e != nil {
 		return nil, e
+	}
+	if t.gate != nil && len(token.KeyID(ctx)) != 0 {
+		select {
+		case t.entered <- struct{}{}:
+		default:
+		}
+		<-t.gate
 	}
 	t.mu.Lock()
 	defer t.mu.Unlock()
@@ -771,6 +781,74 @@ func runCache(f []string) string {
 	return res
 }
 
+// cacherace <expiry: 0|1> <k>: a request that pins key id 1 is inside the backend fetch (slow token) when the key is rotated
+// and k unpinned requests for the same name arrive; then the pinned fetch completes.  Whatever the cache does with
+// the overlapping lookups, the pinned request must be answered with id 1 (or an error), never with another id.
+func runCacheRace(f []string) string {
+	exp := time.Duration(hx.Atoi(f[0])) * cacheUnit
+	k := int(hx.Atoi(f[1]))
+	tok := newFakeToken()
+	tok.gate, tok.entered = make(chan struct{}), make(chan struct{}, 1)
+	c := tokencache.New(tok, exp)
+	type res struct {
+		id  int
+		err error
+	}
+	pinned := make(chan res, 1)
+	go func() {
+		key, err := c.GetKey(token.WithKeyID(context.Background(), []byte{1}), "k")
+		if err != nil {
+			pinned <- res{0, err}
+			return
+		}
+		pinned <- res{int(key.GetID()[0]), nil}
+	}()
+	select {
+	case <-tok.entered:
+	case <-time.After(5 * time.Second):
+		return "err pinned-fetch-not-started"
+	}
+	tok.mu.Lock()
+	tok.ids["k"] = append(tok.ids["k"], []byte{2})
+	tok.mu.Unlock()
+	others := make(chan res, k)
+	for i := 0; i < k; i++ {
+		go func() {
+			key, err := c.GetKey(context.Background(), "k")
+			if err != nil {
+				others <- res{0, err}
+				return
+			}
+			others <- res{int(key.GetID()[0]), nil}
+		}()
+	}
+	time.Sleep(150 * time.Millisecond) // let the unpinned lookups run as far as the cache lets them
+	close(tok.gate)
+	p := <-pinned
+	var us []string
+	for i := 0; i < k; i++ {
+		select {
+		case u := <-others:
+			if u.err != nil {
+				us = append(us, "!")
+			} else {
+				us = append(us, strconv.Itoa(u.id))
+			}
+		case <-time.After(10 * time.Second):
+			us = append(us, "hang")
+		}
+	}
+	for _, u := range us {
+		if u == "hang" {
+			return "ok p=? unpinned-request-hung"
+		}
+	}
+	if p.err != nil {
+		return "ok p=!"
+	}
+	return fmt.Sprintf("ok p=%d", p.id)
+}
+
 func runOp(f []string) (res string) {
 	defer func() {
 		if r := recover(); r != nil {
@@ -789,6 +867,8 @@ func runOp(f []string) (res string) {
 		return runE2E(f[2:])
 	case "cache":
 		return runCache(f[2:])
+	case "cacherace":
+		return runCacheRace(f[2:])
 	case "delays":
 		return "ok " + fmtDurs(delaySeq(int(hx.Atoi(f[2]))))
 	case "fatal":
